@@ -28,6 +28,24 @@ var families = map[string]func(r *rand.Rand, i int) *Program{
 	"lenrace":   genLenRace,
 	"burst":     genBurst,
 	"bigbatch":  genBigBatch,
+	"reap":      genReap,
+}
+
+// reap: the idle-worker reaper against the dispatcher: several workers become idle, time passes
+// (two ticks make them expired), then new submissions race the reaper's pass over its snapshot.
+func genReap(r *rand.Rand, i int) *Program {
+	g := &gen{r: r}
+	p := &Program{Kind: kinds(r), Conc: 3 + r.Intn(3), Queues: []string{qkind(r)}, WFYields: 1 + r.Intn(2),
+		MinIdle: []int{0, 1, 34}[r.Intn(3)], ExpiryNs: 1000, MaxTicks: 1 + r.Intn(3), TickBias: 2 + r.Intn(4), TickHold: true}
+	a := g.adds(p.Conc)
+	a = append(a, Op{Op: "wuf"}, Op{Op: "advance", N: 5000}, Op{Op: "ticks"})
+	a = append(a, g.adds(2+r.Intn(3))...)
+	a = append(a, Op{Op: "wuf"}, Op{Op: "counts"})
+	p.Threads = [][]Op{a}
+	if r.Intn(3) == 0 {
+		p.Threads = append(p.Threads, []Op{{Op: "yield"}, {Op: "yield"}, {Op: "add", K: 50}, {Op: "counts"}})
+	}
+	return p
 }
 
 // bigbatch: one batch of several hundred items whose stream is read only after Wait (or never).
